@@ -85,6 +85,15 @@ def native_undeclared(w=None):
         "{% for i in r2 recursive %}{{ loop(i.c) }}{{ o1 }}{% endfor %}",
         "{% import 'lib' as lib %}{{ lib.f(i1) }}{% from 'lib' import f as ff %}{{ ff(i2) }}",
         "{% include 'inc' %}{{ k1 }}",
+        # a name read from the context before / although the template assigns it
+        "{% set title = title or 'untitled' %}[{{ title }}]",
+        "{% if flag %}{% set title2 = 'fixed' %}{% endif %}[{{ title2 }}]",
+        "{% block b %}{% set n = n|default(3) %}{{ n }}{% endblock %}",
+        "{% for i in seq %}{% if i %}{% set acc = i %}{% endif %}{{ acc }}{% endfor %}",
+        "{% if a1 %}{% set v9 = 1 %}{% elif a2 %}{% set w9 = 2 %}{% else %}{% set v9 = 3 %}{% endif %}{{ v9 }}{{ w9 }}",
+        "{% macro mm() %}{% set inner = inner|default(1) %}{{ inner }}{% endmacro %}{{ mm() }}",
+        "{% with q9 = q9 %}{{ q9 }}{% endwith %}{% set q9 = 1 %}",
+        "{% for row in rows %}{% set total = (total or 0) + row %}{% endfor %}{{ total }}",
     ]
     env = Environment(loader=DictLoader({"lib": "{% macro f(x) %}{{ x }}{{ libvar }}{% endmacro %}", "inc": "{{ incvar }}"}))
     env.context_class = RC
@@ -98,7 +107,8 @@ def native_undeclared(w=None):
             continue
         code = env.compile(tree, "main", "main")
         own_names = set(re.findall(r"resolve\('([^']*)'\)", env.compile(tree, "main", "main", raw=True)))
-        for data in ({}, {n: [1, 2] for n in reported}, {n: 1 for n in reported}):
+        names_all = set(reported) | own_names
+        for data in ({}, {n: [1, 2] for n in names_all}, {n: 1 for n in names_all}, {n: 0 for n in names_all}):
             del looked[:]
             try:
                 env.from_string(src).render(**data)
@@ -119,6 +129,9 @@ def native_refs(w=None):
         '{% extends "base" %}', '{% include "a" %}', '{% include ["missing", "a"] %}', '{% include [1, "a"] %}', '{% include ("a", 1) %}',
         '{% include [x, "a"] %}', '{% include x %}', '{% import "a" as m %}', '{% from "a" import q %}{{ q }}', '{% extends x %}',
         '{% include "a" if c else "b" %}', '{% include ["a", "b"] ignore missing %}', '{% include [1] ignore missing %}',
+        '{% extends x if x else "base" %}', '{% include "base" if not x else x %}', '{% import ("base" if not x else x) as m %}',
+        '{% from (x if x else "base") import q %}', '{% extends "ba" ~ "se" %}', '{% include x ~ "" %}', '{% include (x or "base") %}',
+        '{% include x|default("base") %}', '{% include x if x %}',
         '{% include [none, "a"] ignore missing %}', '{% include [1.5, "a"] ignore missing %}',
     ]
     store = {"base": "B", "a": "A", "b": "Bb", "t0": "T0", "t1": "T1", "t2": "T2"}
@@ -202,6 +215,13 @@ def run_enter_frame(tracking, n, stack):
                  gen_fields={"undeclared_identifiers": und, "_context_reference_stack": st.alloc(HList(items=list(stack)), initial=True)})
     loads = {f"l_0_t{i}": (sym(f"action{i}", "str"), sym(f"param{i}", "str")) for i in range(n)}
     st.get(g.symbols).fields["loads"] = st.alloc(HDict(items=loads), initial=True)
+    # the rest of the symbol table is arbitrary: a name may be stored in the frame AND resolved from the context
+    # (read before assignment, assignment on one branch only), so nothing relates `stores` / `refs` to the loads
+    st.get(g.symbols).fields["stores"] = st.alloc(HSet(dom=z3.Const("symbols.stores.dom", STRSET), size=z3.Int("n_symbols_stores"), kk="str"), initial=True)
+    st.get(g.symbols).fields["refs"] = st.alloc(HDict(dom=z3.Const("symbols.refs.dom", STRSET), val=z3.Const("symbols.refs.val", z3.ArraySort(z3.StringSort(), z3.StringSort())),
+                                                      size=z3.Int("n_symbols_refs"), kk="str", vk="str"), initial=True)
+    st.get(g.symbols).fields["parent"] = None
+    st.get(g.symbols).fields["level"] = 0
     if tracking:
         base = I.closure_of_function(extract.resolve("jinja2.compiler:CodeGenerator.enter_frame"))
 
@@ -674,8 +694,49 @@ def shapes():
                 out.append((cls, f"{cls}{list(kinds)}", ("nodeseq", cls, list(kinds)), "list"))
         out.append((cls, f"{cls}['none', 'str']", ("nodeseq", cls, ["none", "str"]), "list"))
     for c in OTHER_EXPRS:
-        out.append(("other", f"{c.__name__}(...)", ("other", c.__name__), "unknown"))
+        out.append(("other", f"{c.__name__}(...)", ("other", c.__name__, None), "unknown"))
+        # the same class with every combination of constant-string / constant-non-string / dynamic children: a non-Const
+        # template expression is unknown whatever its operands are ("a" if x else y, "a" ~ x, ...)
+        singles, lists = expr_fields(c)
+        if not singles and not lists:
+            continue
+        combos = list(itertools.product(("str", "dyn"), repeat=len(singles))) if len(singles) <= 3 else [tuple("str" for _ in singles), tuple("dyn" for _ in singles)]
+        combos.append(tuple("int" for _ in singles))
+        for combo in combos:
+            for lk in (["str", "dyn"], ["str", "str"]) if lists else ([],):
+                kinds = dict(zip(singles, combo))
+                for f in lists:
+                    kinds[f] = list(lk)
+                out.append(("other_children", f"{c.__name__}({', '.join(f'{k}={v}' for k, v in kinds.items())})", ("other", c.__name__, kinds), "unknown"))
     return out
+
+
+def expr_fields(cls):
+    """(fields holding one expression, fields holding a list of expressions) of a node class, from its annotations"""
+    import typing
+    ann = {}
+    for k in reversed(cls.__mro__):
+        ann.update(getattr(k, "__annotations__", {}))
+    singles, lists = [], []
+    for f in cls.fields:
+        a = ann.get(f)
+        if a is None:
+            continue
+        origin, args = typing.get_origin(a), typing.get_args(a)
+        def is_expr(x):
+            x = getattr(N, x.__forward_arg__, None) if isinstance(x, typing.ForwardRef) else (getattr(N, x, None) if isinstance(x, str) else x)
+            return inspect.isclass(x) and issubclass(x, N.Expr)
+        if origin is list and args and is_expr(args[0]):
+            lists.append(f)
+        elif is_expr(a) or (args and any(is_expr(x) for x in args) and origin is not list and origin is not dict):
+            singles.append(f)
+    return singles, lists
+
+
+def _child(st, kind, path):
+    if kind == "dyn":
+        return emit.make_node(st, N.Name, path)
+    return emit.make_node(st, N.Const, path, fields={"value": _leaf(kind, path.replace(".", "_") + "_v")})
 
 
 def build_template(st, spec):
@@ -702,7 +763,13 @@ def build_template(st, spec):
                 leaves.append((k, v))
         return emit.make_node(st, getattr(N, spec[1]), "tmpl", fields={"items": st.alloc(HList(items=items))}), leaves
     if kind == "other":
-        return emit.make_node(st, getattr(N, spec[1]), "tmpl"), [("dyn", None)]
+        fields = {}
+        for f, k in (spec[2] or {}).items():
+            if isinstance(k, list):
+                fields[f] = st.alloc(HList(items=[_child(st, kk, f"tmpl.{f}[{i}]") for i, kk in enumerate(k)]))
+            else:
+                fields[f] = _child(st, k, f"tmpl.{f}")
+        return emit.make_node(st, getattr(N, spec[1]), "tmpl", fields=fields), [("dyn", None)]
     raise ValueError(spec)
 
 
@@ -717,7 +784,19 @@ def source_of(node_cls, spec):
         inner = ", ".join(lit(k, i) for i, k in enumerate(spec[2]))
         e = f"[{inner}]" if spec[1] == "List" else (f"({inner},)" if len(spec[2]) == 1 else f"({inner})")
     elif kind == "other":
-        e = {"Name": "x", "CondExpr": '"a" if c else "b"', "Getattr": "x.y", "Concat": '"a" ~ x', "Call": "f()", "Filter": "x|lower", "Getitem": "x[0]", "Add": '"a" + x'}.get(spec[1])
+        kinds = spec[2] or {}
+        cls = getattr(N, spec[1])
+        def sub(f, default="x"):
+            k = kinds.get(f)
+            return default if k is None or isinstance(k, list) else lit(k, 0)
+        if spec[1] == "CondExpr":
+            e = f"({sub('expr1')} if {sub('test', 'c')} else {sub('expr2')})"
+        elif issubclass(cls, N.BinExpr) and getattr(cls, "operator", None) in ("+", "-", "*", "/", "//", "%", "**", "and", "or"):
+            e = f"({sub('left')} {cls.operator} {sub('right')})"
+        elif spec[1] == "Concat":
+            e = "(" + " ~ ".join(lit(k, i) for i, k in enumerate(kinds.get("nodes", ["str", "dyn"]))) + ")"
+        else:
+            e = {"Name": "x", "Getattr": f"{sub('node')}.y", "Call": "f()", "Filter": f"({sub('node')}|lower)", "Getitem": f"{sub('node')}[0]", "Not": f"(not {sub('node')})"}.get(spec[1])
         if e is None:
             return None
     else:
@@ -773,7 +852,13 @@ def shape_failures(node_cls, spec, whole):
             elif not has_none:
                 fails.append(f"[single:nonstr-no-none] a non-string constant template reference ({k}) yields no None")
         elif whole == "unknown":
-            if not has_none:
+            kinds = (spec[2] or {}) if len(spec) > 2 else {}
+            if spec[1] == "CondExpr" and kinds.get("expr1") == "str" and kinds.get("expr2") == "str":
+                # both branches are hard-coded names: reporting exactly those two is as good as None
+                got = {str(y.t) for y in ys if isinstance(y, Sym)}
+                if not has_none and not {"tmpl_expr1_v", "tmpl_expr2_v"} <= got:
+                    fails.append("[dynamic:no-none] a conditional between two constant names yields neither both names nor None")
+            elif not has_none:
                 fails.append("[dynamic:no-none] a dynamic template expression yields no None")
         elif node_cls is not N.Include:
             # outside include the sequence as a whole is the template name (get_template): a tuple can be a loader key
@@ -846,6 +931,24 @@ def _fromimport_fields(st):
     return {"names": st.alloc(HList(items=["n0", ("n1", "a1")]))}
 
 
+def native_standin(which):
+    def fn(task, tier, seed):
+        t0 = time.time()
+        if which == "undeclared":
+            task.bound_text = ("22 templates (plain reads, loops, branches, macros, with, blocks, namespaces, call blocks, filter/set blocks, imports, "
+                               "includes, read-before-assign, assignment on one branch only, in blocks / loops / macros) x 4 data assignments rendered with a "
+                               "recording Context; oracle: every name looked up at run time is reported by find_undeclared_variables or is an environment global")
+            v, d = native_undeclared()
+        else:
+            task.bound_text = ("24 extends / include / import / from-import forms (constant, list, tuple, dynamic, conditional with constant and dynamic "
+                               "branches, concatenation, filters, non-string names) x 2 data assignments rendered with a recording loader; oracle: every "
+                               "template loaded at run time is reported by find_referenced_templates, or None is reported")
+            v, d = native_refs()
+        task.stats = {"seconds": round(time.time() - t0, 2)}
+        return [Res(f"C32.native.{which}", "refuted" if v else "bounded-ok", "native", time.time() - t0, d[:700], "bounded", witness={"family": which} if v else None)]
+    return fn
+
+
 # ------------------------------------------------------------------------------------------ tasks
 
 TASKS = (
@@ -864,6 +967,8 @@ TASKS = (
        for t in all_visitor_tasks("C32", "C32.refs.sites.others", sites_pred(f"visit_{nm}"), replay_fn=native_refs, only=[nm], buffers=(None,), configure=_cfg_visitors)]
     + [FnTask("C32", "C32.refs.sites.tables", sites_tables, "table", native_refs)]
     + [_with_key(FnTask("C32", f"C32.refs.yield.{c.__name__}", refs_yield(c), "vc", native_refs), yield_key) for c in (N.Extends, N.Include, N.Import, N.FromImport)]
+    + [FnTask("C32", "C32.native.undeclared", native_standin("undeclared"), "bounded", native_undeclared),
+       FnTask("C32", "C32.native.refs", native_standin("refs"), "bounded", native_refs)]
 )
 
 META = {
